@@ -31,7 +31,7 @@ func init() {
 		Floor:       map[string]int{"quick": 200, "thorough": 4000},
 		Plan:        c15Plan,
 		Run:         c15Run,
-		Assumptions: []string{"statistics are compared after Add in sorted order (the same sets as C04)", "an index without any placed record is written as zero references, which the readers report as a nil index; that shape is skipped"},
+		Assumptions: []string{"statistics are compared after Add in sorted order (the same sets as C04)", "statistics of an index without any placed record: only the unplaced count"},
 		TimeoutS:    map[string]int{"quick": 900, "thorough": 3400},
 	})
 }
@@ -285,7 +285,7 @@ func c15Run(c core.Case) *core.Result {
 	r.FP = core.Hash(ic.desc, fmt.Sprint(ic.set.Recs))
 	r.Sample = map[string]any{"config": ic.desc}
 	if placed == 0 {
-		return r
+		r.Count("indexes_of_unplaced_records_only", 1)
 	}
 	x, cls, d := ic.build(rng)
 	if cls != "" {
@@ -314,9 +314,6 @@ func c15Run(c core.Case) *core.Result {
 	unplacedAdded := false
 	for i, rec := range ic.set.Recs {
 		if rec.Ref < 0 {
-			if ic.kind == "tabix" && maxRef < 0 {
-				continue // the harness does not add these (no registered name yet)
-			}
 			unplaced++
 			unplacedAdded = true
 			continue
